@@ -250,16 +250,42 @@ func (c *streamCtx) histShapes(prop string) []func(v int) *histSpec {
 	}
 	// controller constructed earlier: the cloud group's facts change between construction and the first scan
 	shapes["constructed-earlier"] = func(v int) *histSpec {
-		init := c.histWorld(4, []int64{8, 300}[v%2], func(b *gbuild) {
+		init := c.histWorld(4, []int64{8, 300, 40}[v%3], func(b *gbuild) {
 			b.o.MinNodes, b.o.MaxNodes = 0, 0 // auto-discovery
 			b.asgMin, b.asgMax = 1, 6
+			b.o.FastNodeRemovalRate, b.o.SlowNodeRemovalRate = 3, 2
 		})
-		return hist(init, "constructed-earlier",
-			step(0, c.off(), "ASG limits changed since construction", hEdit{Op: "asg", ASG: "asg-g1", Min: i64p(3), Max: i64p(4)}),
-			step(700, c.off(), "ASG limits widened", hEdit{Op: "asg", ASG: "asg-g1", Min: i64p(0), Max: i64p(20)}),
-			step(700, c.off(), "desired edited by hand, an instance replaced", hEdit{Op: "asg", ASG: "asg-g1", Desired: i64p(9)},
-				hEdit{Op: "del_instance", ASG: "asg-g1", Inst: &SimInst{ID: "i-g1-n0"}}, hEdit{Op: "add_instance", ASG: "asg-g1", Inst: &SimInst{AZ: "z", ID: "i-repl"}}),
-			step(700, c.off(), "limits below the node count", hEdit{Op: "asg", ASG: "asg-g1", Min: i64p(0), Max: i64p(2)}))
+		asg := func(note string, adv int64, min, max int64) histStep {
+			return step(adv, c.off(), note, hEdit{Op: "asg", ASG: "asg-g1", Min: i64p(min), Max: i64p(max)})
+		}
+		switch (v / 3) % 4 {
+		case 0:
+			return hist(init, "constructed-earlier",
+				asg("ASG limits changed since construction: minimum raised to the node count", 0, 4, 5),
+				asg("minimum above the node count", 700, 5, 9),
+				asg("limits widened", 700, 0, 20),
+				step(700, c.off(), "desired edited by hand, an instance replaced", hEdit{Op: "asg", ASG: "asg-g1", Desired: i64p(9)},
+					hEdit{Op: "del_instance", ASG: "asg-g1", Inst: &SimInst{ID: "i-g1-n0"}}, hEdit{Op: "add_instance", ASG: "asg-g1", Inst: &SimInst{AZ: "z", ID: "i-repl"}}),
+				asg("limits below the node count", 700, 0, 2))
+		case 1:
+			return hist(init, "constructed-earlier",
+				asg("minimum lowered to 0 since construction", 0, 0, 6),
+				asg("minimum raised to 3", 60, 3, 6),
+				asg("maximum lowered to the node count", 700, 0, 4),
+				asg("maximum raised", 700, 0, 12))
+		case 2:
+			return hist(init, "constructed-earlier",
+				asg("maximum lowered below desired + delta since construction", 0, 1, 5),
+				asg("maximum equal to desired", 700, 1, 4),
+				asg("maximum raised again", 700, 1, 10),
+				asg("minimum 2", 700, 2, 10))
+		default:
+			return hist(init, "constructed-earlier",
+				step(0, c.off(), "first scan with the limits seen at construction"),
+				asg("then the minimum is raised to 3", 60, 3, 6).restart(),
+				asg("lowered to 1, maximum 4", 700, 1, 4),
+				asg("both 0 in the cloud too", 700, 0, 0))
+		}
 	}
 	// the lister lags behind the API server after a reap: the deleted node is still listed
 	shapes["lister-lag"] = func(v int) *histSpec {
@@ -346,9 +372,9 @@ func (c *streamCtx) histShapes(prop string) []func(v int) *histSpec {
 	byProp := map[string][]string{
 		"C01": {"taint-wait-reap", "pods-move", "restart", "external-taints", "lister-lag", "cordon-annotate"},
 		"C02": {"cooldown", "restart", "from-zero", "dry", "two-groups", "transient-failure"},
-		"C03": {"repeated-scale-down", "taint-wait-reap", "constructed-earlier", "cordon-annotate"},
-		"C04": {"constructed-earlier", "cooldown", "from-zero", "two-groups"},
-		"C06": {"repeated-scale-down", "cooldown", "constructed-earlier", "from-zero"},
+		"C03": {"constructed-earlier", "repeated-scale-down", "taint-wait-reap", "constructed-earlier", "cordon-annotate"},
+		"C04": {"constructed-earlier", "cooldown", "constructed-earlier", "from-zero", "two-groups"},
+		"C06": {"constructed-earlier", "repeated-scale-down", "cooldown", "constructed-earlier", "from-zero"},
 		"C07": {"cooldown", "restart", "dry", "transient-failure"},
 		"C08": {"repeated-scale-down", "taint-wait-reap", "cordon-annotate"},
 		"C09": {"cordon-annotate", "pods-move", "taint-wait-reap"},
